@@ -229,7 +229,7 @@ impl<'a> TypeGenerator<'a> {
                     let is_boxed = field
                         .type_name
                         .as_ref()
-                        .map(|e| e.contains("Box<"))
+                        .map(|e| type_name_is_boxed(e))
                         .unwrap_or_default();
 
                     for param in path.parent_type_params().iter() {
@@ -254,7 +254,7 @@ impl<'a> TypeGenerator<'a> {
                     let is_boxed = field
                         .type_name
                         .as_ref()
-                        .map(|e| e.contains("Box<"))
+                        .map(|e| type_name_is_boxed(e))
                         .unwrap_or_default();
 
                     for param in path.parent_type_params().iter() {
@@ -483,4 +483,13 @@ impl<'a> TypeGenerator<'a> {
             .ok_or(TypegenError::TypeNotFound(id))?;
         Ok(ty)
     }
+}
+
+/// Whether the recorded type name of a field mentions a pointer type that `scale-info` treats as
+/// transparent (`Box<T>`, `Rc<T>`, `Arc<T>` all register as `T`). Such a field is boxed in the
+/// generated code, otherwise a type that refers to itself through the pointer would be infinitely sized.
+fn type_name_is_boxed(type_name: &str) -> bool {
+    ["Box<", "Rc<", "Arc<"]
+        .iter()
+        .any(|pointer| type_name.contains(pointer))
 }
